@@ -11,9 +11,9 @@ Every scenario runs under BOTH subsystems.
   returned trigger, virtual exit time and the tables afterwards must be equal;
 * property (verdict): an independent Python oracle computes the specified exit (first of check-now / first decisive
   occurrence / deadline anchored at the call) and demands tables after == tables before on EVERY ended exit
-  (return, exception, cancellation).  Open deviations of the tree are the known findings C15-F1 and F4;
-  C15-F2 (d8d17a4), F3 (74d9745), F5 (3b0ef9c) and F6 (28f0376) are fixed: the oracle demands the repaired behaviour and no
-  signature excuses them any more (their witnesses stay in WITNESSES as regression cases).
+  (return, exception, cancellation).  All six former deviations are fixed in /repo (C15-F1/F4 a3cf272, F2 d8d17a4,
+  F3 74d9745, F5 3b0ef9c, F6 28f0376): the oracle demands the repaired behaviour, no signature excuses anything, and
+  the former witnesses stay in WITNESSES as regression cases.
 """
 import json
 import re
@@ -141,10 +141,10 @@ def _w(cfg, timeline, call=1.1, v_init=0):
 # the witnesses of the `_cex` theorems of Props/C15.lean, replayed on the real code by every run
 WITNESSES = [
     _w({"state": {"fn": ["eq", 5], "check_now": None, "parse_ok": True}, "event": {"fn": None, "parse_ok": True}},
-       [[1.4, ["c"]]]),                                                              # F1 (open) / F2 (fixed d8d17a4) (#20)
+       [[1.4, ["c"]]]),                                                              # F1 (fixed a3cf272) / F2 (fixed d8d17a4) (#20)
     _w({"event": {"fn": None, "parse_ok": True}, "timeout": 0}, [[1.75, ["e", 3]]]),  # F3 (#23, fixed 74d9745)
     _w({"timeout": 0}, []),                                                          # F3 (fixed): used to raise RuntimeError
-    _w({"event": {"fn": None, "parse_ok": True}, "mqtt": {"parse_ok": False}}, []),   # F4
+    _w({"event": {"fn": None, "parse_ok": True}, "mqtt": {"parse_ok": False}}, []),   # F4 (fixed a3cf272)
     _w({"event": {"fn": None, "parse_ok": True}, "time": ["abs", 0]}, [[2.25, ["e", 4]]]),   # F5 (fixed 3b0ef9c)
     _w({"time": ["abs", 0], "timeout": 2.5}, [[2.25, ["e", 4]]]),                      # F5 (fixed): expired time + timeout
     _w({"time": ["abs", 0]}, [[2.25, ["e", 4]]]),                                      # expired time trigger alone: none
@@ -489,10 +489,8 @@ def verdict(c):
     return o
 
 
-SIGS = [
-    (r"^legacy: left behind after the waiting task was cancelled", "legacy: subscriptions left behind after the waiting task was cancelled"),
-    (r"^legacy: left behind after SyntaxError in the mqtt_trigger expression", "legacy: event subscription left behind after SyntaxError in the mqtt_trigger expression"),
-]
+# no deviation of the tree is open any more: nothing is mapped onto a known-finding signature
+SIGS = []
 
 
 def classify(c, reason):
